@@ -229,9 +229,11 @@ package websocket
 //@                   (!ctl && op > 2)
 //@   ensures [reported] violation ==> err != nil
 //@   ensures [closes] err != nil ==> s.state == StateClosedByUs
-//@   ensures [close-1002] err != nil && old(s.state) == StateActive ==> len(s.pendingFrames) == n0 + 1 &&
-//@           (*s.pendingFrames[n0])[0] == 136 && int((*s.pendingFrames[n0])[1] & 127) == 2 && wireFrame(s, s.pendingFrames[n0])
-//@   ensures [close-1002-code] err != nil && old(s.state) == StateActive && s.role == RoleServer ==>
+//@   ensures [close-1002] err != nil && old(s.state) == StateActive ==> len(s.pendingFrames) == n0 + 1
+//@   ensures [close-1002-header] err != nil && old(s.state) == StateActive && len(s.pendingFrames) == n0 + 1 ==>
+//@           (*s.pendingFrames[n0])[0] == 136 && int((*s.pendingFrames[n0])[1] & 127) == 2
+//@   ensures [close-1002-wire] err != nil && old(s.state) == StateActive && len(s.pendingFrames) == n0 + 1 ==> wireFrame(s, s.pendingFrames[n0])
+//@   ensures [close-1002-code] err != nil && old(s.state) == StateActive && s.role == RoleServer && len(s.pendingFrames) == n0 + 1 ==>
 //@           int((*s.pendingFrames[n0])[2])*256 + int((*s.pendingFrames[n0])[3]) == 1002
 //@   ensures [single-close] err != nil && old(s.state) == StateClosedByUs ==> len(s.pendingFrames) == n0
 //@   ensures [order] forall j :: 0 <= j && j < n0 ==> s.pendingFrames[j] == old(s.pendingFrames[j])
